@@ -20,6 +20,7 @@ along with evo.  If not, see <http://www.gnu.org/licenses/>.
 """
 
 import copy
+import functools
 import os
 import collections
 import collections.abc
@@ -283,11 +284,15 @@ def set_aspect_equal(ax: Axes) -> None:
     ax.set_zlim3d([zmean - plot_radius, zmean + plot_radius])
 
 
-def _get_length_formatter(length_unit: Unit) -> FuncFormatter:
-    def formatter(x, _):
-        return "{0:g}".format(x / METER_SCALE_FACTORS[length_unit])
+def _format_length(x, _, length_unit: Unit) -> str:
+    return "{0:g}".format(x / METER_SCALE_FACTORS[length_unit])
 
-    return FuncFormatter(formatter)
+
+def _get_length_formatter(length_unit: Unit) -> FuncFormatter:
+    # No local function here: figures have to stay picklable for
+    # PlotCollection.serialize().
+    return FuncFormatter(
+        functools.partial(_format_length, length_unit=length_unit))
 
 
 def prepare_axis(fig: Figure, plot_mode: PlotMode = PlotMode.xy,
